@@ -12,13 +12,19 @@ walked).  `g` selects the code:
 * `g = true`  — module.cpp with patches/C11-02 (a lifecycle call on a module that is already
   inside one of its lifecycle functions is refused; index loops);
 * `g = false` — module.cpp before that patch (re-entrant calls go through).
+* `x = true`  — module.cpp with patches/C11-07 (an exception that leaves a child's `initialize()` /
+  `start()` is caught by the parent, which rolls back exactly as for a failing required child and
+  rethrows);  `x = false` — before that patch: no try/catch anywhere, the exception unwinds every frame.
 
 Hook scripts are one-shot: the script of a hook is taken (and cleared) when the hook runs.
 The event of a hook is recorded when the hook returns (after its script); a hook that throws is
 recorded as a failed `onInit`/`onStart` resp. as a run `onStop`/`onCleanup`, and the exception
-propagates to the caller of the outermost API function (nobody catches; RAII restores the
-re-entrancy flag).  Running out of fuel is reported like an exception with `oof` set (the
-driver prints it; the theorems exclude it through `thrown = false`).
+propagates to the caller of the outermost API function (the scope-exit action restores the
+re-entrancy flag of every frame it passes).  `td` is set when the exception left an `onStop` /
+`onCleanup` hook: module.cpp does not (and cannot sensibly) recover from a teardown hook that
+throws — `~Module()` is `noexcept`, so on the destructor path it is `std::terminate` — and the
+theorems exclude such runs through `td = false`.  Running out of fuel is reported like an exception
+with `oof` set (the driver prints it; the theorems exclude it through `oof = false`).
 -/
 import TboxModel.C11.Model
 namespace Tbox.C11.Arena
@@ -116,9 +122,13 @@ structure Res where
   tr : List Ev
   thrown : Bool
   oof : Bool := false
+  /-- an exception left an `onStop` / `onCleanup` hook (the region the theorems exclude) -/
+  td : Bool := false
 
-def Res.ok (σ : Store) (ret : Bool) (tr : List Ev) : Res := ⟨σ, ret, tr, false, false⟩
-def Res.outOfFuel (σ : Store) : Res := ⟨σ, false, [], true, true⟩
+def Res.ok (σ : Store) (ret : Bool) (tr : List Ev) : Res := ⟨σ, ret, tr, false, false, false⟩
+def Res.outOfFuel (σ : Store) : Res := ⟨σ, false, [], true, true, false⟩
+/-- outside what the theorems speak about: the fuel of the executable model ran out, or a teardown hook threw -/
+def Res.bad (r : Res) : Bool := r.oof || r.td
 
 /-- may a script touch this module (it exists and its destructor has not begun) -/
 def callable (σ : Store) (t : Nat) : Bool := (σ t).alive && !(σ t).dying
@@ -130,11 +140,24 @@ def rootOf (σ : Store) : Nat → Nat → Nat
 
 def hasUnnamedKid (σ : Store) (ks : List (Nat × Bool)) : Bool := ks.any fun k => !(σ k.1).named
 
-/-- `p->add(c, req)`.  `none` = not a well-formed request (dead/dying module, or it would close
-a cycle): nothing is called.  Otherwise the new store and what `add()` returns. -/
+/-- `p->add(c, req)`.  `none` = not a well-formed request (dead/dying module): nothing is called.
+Otherwise the new store and what `add()` returns. -/
 def addOp (σ : Store) (p c : Nat) (req : Bool) : Option (Store × Bool) :=
   if !(callable σ p && callable σ c) then none
-  else if !(σ c).hasParent && rootOf σ 1000 p = c then none
+  else if (σ p).st ≠ .none then some (σ, false)
+  else if (σ c).hasParent then some (σ, false)
+  else if rootOf σ 1000 p = c then some (σ, false)      -- patches/C11-08: `child` is `this` or one of its ancestors
+  else if !(σ c).named && hasUnnamedKid σ (σ p).kids then some (σ, false)
+  else
+    let x := σ.get p
+    let σ1 := σ.set p { x with kids := x.kids ++ [(c, req)] }
+    let y := σ1.get c
+    some (σ1.set c { y with hasParent := true, parent := p }, true)
+
+/-- `add()` before patches/C11-08: a parentless `child` that is `this` itself or the root of the tree `this` hangs in is
+accepted — the "tree" then contains a cycle (used by the counterexample only) -/
+def addOpOrig (σ : Store) (p c : Nat) (req : Bool) : Option (Store × Bool) :=
+  if !(callable σ p && callable σ c) then none
   else if (σ p).st ≠ .none then some (σ, false)
   else if (σ c).hasParent then some (σ, false)
   else if !(σ c).named && hasUnnamedKid σ (σ p).kids then some (σ, false)
@@ -149,156 +172,166 @@ def undo : Api → Api
 
 mutual
 /-- a public lifecycle function of module `n` (`own = false`: called by `~Module`, where the
-virtual hooks of `n` itself resolve to the empty base hooks) -/
-def aCall (g : Bool) : Nat → Store → Nat → Api → Bool → Res
+virtual hooks of `n` itself resolve to the empty base hooks).  The re-entrancy flag is released by a
+scope-exit action, i.e. also when an exception passes through. -/
+def aCall (g x : Bool) : Nat → Store → Nat → Api → Bool → Res
   | 0, σ, _, _, _ => Res.outOfFuel σ
   | f + 1, σ, n, a, own =>
     if g && (σ n).busy then Res.ok σ false []          -- refused: already inside a lifecycle function
     else
       let σ1 := if g then σ.setBusy n true else σ
       let r := match a with
-        | .init => bInit g f σ1 n
-        | .start => bStart g f σ1 n
-        | .stop => bStop g f σ1 n own
-        | .cleanup => bCleanup g f σ1 n own
+        | .init => bInit g x f σ1 n
+        | .start => bStart g x f σ1 n
+        | .stop => bStop g x f σ1 n own
+        | .cleanup => bCleanup g x f σ1 n own
       { r with σ := if g then r.σ.setBusy n false else r.σ }
 
 /-- `Module::initialize()` after the re-entrancy check -/
-def bInit (g : Bool) : Nat → Store → Nat → Res
+def bInit (g x : Bool) : Nat → Store → Nat → Res
   | 0, σ, _ => Res.outOfFuel σ
   | f + 1, σ, n =>
     if (σ n).st ≠ .none then Res.ok σ false []
     else if (σ n).named && !(σ n).cfg then Res.ok σ false []
     else
       let ok := (σ n).initOk
-      let h := runHook g f σ n .onInit
-      if h.thrown then ⟨h.σ, false, h.tr ++ [Ev.init n false], true, h.oof⟩
-      else if !ok then Res.ok h.σ false (h.tr ++ [Ev.init n false])
+      let h := runHook g x f σ n .onInit
+      if h.thrown then ⟨h.σ, false, h.tr ++ [Ev.init n false], true, h.oof, h.td⟩
+      else if !ok then ⟨h.σ, false, h.tr ++ [Ev.init n false], false, h.oof, h.td⟩
       else
-        let l := fwdLoop g f h.σ n .init 0
-        if l.thrown then ⟨l.σ, false, h.tr ++ [Ev.init n true] ++ l.tr, true, l.oof⟩
-        else if l.ret then Res.ok (l.σ.setSt n .inited) true (h.tr ++ [Ev.init n true] ++ l.tr)
+        let l := fwdLoop g x f h.σ n .init 0
+        let pre := h.tr ++ [Ev.init n true] ++ l.tr
+        if l.thrown && !(x && l.ret) then ⟨l.σ, false, pre, true, h.oof || l.oof, h.td || l.td⟩
+        else if !l.thrown && l.ret then ⟨l.σ.setSt n .inited, true, pre, false, h.oof || l.oof, h.td || l.td⟩
         else
-          let c := runHook g f l.σ n .onCleanup
-          ⟨c.σ, false, h.tr ++ [Ev.init n true] ++ l.tr ++ c.tr ++ [Ev.cleanup n], c.thrown, c.oof⟩
+          -- a required child failed, or (patch C11-07) a child's initialize() threw: the children before it are
+          -- rolled back, now this module; then `return false` resp. `throw;`
+          let c := runHook g x f l.σ n .onCleanup
+          ⟨c.σ, false, pre ++ c.tr ++ [Ev.cleanup n], l.thrown || c.thrown, h.oof || l.oof || c.oof,
+            h.td || l.td || c.td || c.thrown⟩
 
 /-- `Module::start()` after the re-entrancy check -/
-def bStart (g : Bool) : Nat → Store → Nat → Res
+def bStart (g x : Bool) : Nat → Store → Nat → Res
   | 0, σ, _ => Res.outOfFuel σ
   | f + 1, σ, n =>
     if (σ n).st ≠ .inited then Res.ok σ false []
     else
       let ok := (σ n).startOk
-      let h := runHook g f σ n .onStart
-      if h.thrown then ⟨h.σ, false, h.tr ++ [Ev.start n false], true, h.oof⟩
-      else if !ok then Res.ok h.σ false (h.tr ++ [Ev.start n false])
+      let h := runHook g x f σ n .onStart
+      if h.thrown then ⟨h.σ, false, h.tr ++ [Ev.start n false], true, h.oof, h.td⟩
+      else if !ok then ⟨h.σ, false, h.tr ++ [Ev.start n false], false, h.oof, h.td⟩
       else
-        let l := fwdLoop g f h.σ n .start 0
-        if l.thrown then ⟨l.σ, false, h.tr ++ [Ev.start n true] ++ l.tr, true, l.oof⟩
-        else if l.ret then Res.ok (l.σ.setSt n .running) true (h.tr ++ [Ev.start n true] ++ l.tr)
+        let l := fwdLoop g x f h.σ n .start 0
+        let pre := h.tr ++ [Ev.start n true] ++ l.tr
+        if l.thrown && !(x && l.ret) then ⟨l.σ, false, pre, true, h.oof || l.oof, h.td || l.td⟩
+        else if !l.thrown && l.ret then ⟨l.σ.setSt n .running, true, pre, false, h.oof || l.oof, h.td || l.td⟩
         else
-          let c := runHook g f l.σ n .onStop
-          ⟨c.σ, false, h.tr ++ [Ev.start n true] ++ l.tr ++ c.tr ++ [Ev.stop n], c.thrown, c.oof⟩
+          let c := runHook g x f l.σ n .onStop
+          ⟨c.σ, false, pre ++ c.tr ++ [Ev.stop n], l.thrown || c.thrown, h.oof || l.oof || c.oof,
+            h.td || l.td || c.td || c.thrown⟩
 
 /-- `Module::stop()` after the re-entrancy check (also the first step of `cleanup()`) -/
-def bStop (g : Bool) : Nat → Store → Nat → Bool → Res
+def bStop (g x : Bool) : Nat → Store → Nat → Bool → Res
   | 0, σ, _, _ => Res.outOfFuel σ
   | f + 1, σ, n, own =>
     if (σ n).st ≠ .running then Res.ok σ true []
     else
-      let l := revLoop g f σ n .stop (σ n).kids.length
-      if l.thrown then ⟨l.σ, false, l.tr, true, l.oof⟩
+      let l := revLoop g x f σ n .stop (σ n).kids.length
+      if l.thrown then ⟨l.σ, false, l.tr, true, l.oof, l.td⟩
       else if own then
-        let h := runHook g f l.σ n .onStop
-        if h.thrown then ⟨h.σ, false, l.tr ++ h.tr ++ [Ev.stop n], true, h.oof⟩
-        else Res.ok (h.σ.setSt n .inited) true (l.tr ++ h.tr ++ [Ev.stop n])
-      else Res.ok (l.σ.setSt n .inited) true l.tr
+        let h := runHook g x f l.σ n .onStop
+        if h.thrown then ⟨h.σ, false, l.tr ++ h.tr ++ [Ev.stop n], true, l.oof || h.oof, true⟩
+        else ⟨h.σ.setSt n .inited, true, l.tr ++ h.tr ++ [Ev.stop n], false, l.oof || h.oof, l.td || h.td⟩
+      else ⟨l.σ.setSt n .inited, true, l.tr, false, l.oof, l.td⟩
 
 /-- `Module::cleanup()` after the re-entrancy check -/
-def bCleanup (g : Bool) : Nat → Store → Nat → Bool → Res
+def bCleanup (g x : Bool) : Nat → Store → Nat → Bool → Res
   | 0, σ, _, _ => Res.outOfFuel σ
   | f + 1, σ, n, own =>
     if (σ n).st = .none then Res.ok σ true []
     else
-      let s := bStop g f σ n own
+      let s := bStop g x f σ n own
       if s.thrown then s
       else
-        let l := revLoop g f s.σ n .cleanup (s.σ n).kids.length
-        if l.thrown then ⟨l.σ, false, s.tr ++ l.tr, true, l.oof⟩
+        let l := revLoop g x f s.σ n .cleanup (s.σ n).kids.length
+        if l.thrown then ⟨l.σ, false, s.tr ++ l.tr, true, s.oof || l.oof, s.td || l.td⟩
         else if own then
-          let h := runHook g f l.σ n .onCleanup
-          if h.thrown then ⟨h.σ, false, s.tr ++ l.tr ++ h.tr ++ [Ev.cleanup n], true, h.oof⟩
-          else Res.ok (h.σ.setSt n .none) true (s.tr ++ l.tr ++ h.tr ++ [Ev.cleanup n])
-        else Res.ok (l.σ.setSt n .none) true (s.tr ++ l.tr)
+          let h := runHook g x f l.σ n .onCleanup
+          if h.thrown then ⟨h.σ, false, s.tr ++ l.tr ++ h.tr ++ [Ev.cleanup n], true, s.oof || l.oof || h.oof, true⟩
+          else ⟨h.σ.setSt n .none, true, s.tr ++ l.tr ++ h.tr ++ [Ev.cleanup n], false, s.oof || l.oof || h.oof,
+                 s.td || l.td || h.td⟩
+        else ⟨l.σ.setSt n .none, true, s.tr ++ l.tr, false, s.oof || l.oof, s.td || l.td⟩
 
-/-- `for (i = from; i < children_.size(); ++i) if (!children_[i]->api() && required) { roll back; fail }` -/
-def fwdLoop (g : Bool) : Nat → Store → Nat → Api → Nat → Res
+/-- `for (i = from; i < children_.size(); ++i) { ok = children_[i]->api();  [catch (...) { roll back; throw; }]
+if (!ok && required) { roll back; return false; } }`.  A thrown result with `ret = true` tells the caller that the catch
+handler has rolled back the earlier children and still has to undo the module itself (patch C11-07, `x`). -/
+def fwdLoop (g x : Bool) : Nat → Store → Nat → Api → Nat → Res
   | 0, σ, _, _, _ => Res.outOfFuel σ
   | f + 1, σ, n, a, i =>
     match (σ n).kids[i]? with
     | none => Res.ok σ true []
     | some (c, req) =>
-      let r := aCall g f σ c a true
-      if r.thrown then ⟨r.σ, false, r.tr, true, r.oof⟩
-      else if !r.ret && req then
-        let b := revLoop g f r.σ n (undo a) i
-        ⟨b.σ, false, r.tr ++ b.tr, b.thrown, b.oof⟩
+      let r := aCall g x f σ c a true
+      if r.thrown && !x then ⟨r.σ, false, r.tr, true, r.oof, r.td⟩
+      else if r.thrown || (!r.ret && req) then
+        let b := revLoop g x f r.σ n (undo a) i
+        ⟨b.σ, r.thrown && !b.thrown, r.tr ++ b.tr, r.thrown || b.thrown, r.oof || b.oof, r.td || b.td⟩
       else
-        let l := fwdLoop g f r.σ n a (i + 1)
-        ⟨l.σ, l.ret, r.tr ++ l.tr, l.thrown, l.oof⟩
+        let l := fwdLoop g x f r.σ n a (i + 1)
+        ⟨l.σ, l.ret, r.tr ++ l.tr, l.thrown, r.oof || l.oof, r.td || l.td⟩
 
 /-- `while (i > 0) children_[--i]->api();` -/
-def revLoop (g : Bool) : Nat → Store → Nat → Api → Nat → Res
+def revLoop (g x : Bool) : Nat → Store → Nat → Api → Nat → Res
   | 0, σ, _, _, _ => Res.outOfFuel σ
   | _ + 1, σ, _, _, 0 => Res.ok σ true []
   | f + 1, σ, n, a, j + 1 =>
     match (σ n).kids[j]? with
-    | none => revLoop g f σ n a j
+    | none => revLoop g x f σ n a j
     | some (c, _) =>
-      let r := aCall g f σ c a true
-      if r.thrown then ⟨r.σ, false, r.tr, true, r.oof⟩
+      let r := aCall g x f σ c a true
+      if r.thrown then ⟨r.σ, false, r.tr, true, r.oof, r.td⟩
       else
-        let l := revLoop g f r.σ n a j
-        ⟨l.σ, true, r.tr ++ l.tr, l.thrown, l.oof⟩
+        let l := revLoop g x f r.σ n a j
+        ⟨l.σ, true, r.tr ++ l.tr, l.thrown, r.oof || l.oof, r.td || l.td⟩
 
 /-- a user hook of module `n`: take its (one-shot) script and run it -/
-def runHook (g : Bool) : Nat → Store → Nat → Hook → Res
+def runHook (g x : Bool) : Nat → Store → Nat → Hook → Res
   | 0, σ, _, _ => Res.outOfFuel σ
-  | f + 1, σ, n, h => runActs g f (σ.set n ((σ n).clearSlot h)) ((σ n).slot h)
+  | f + 1, σ, n, h => runActs g x f (σ.set n ((σ n).clearSlot h)) ((σ n).slot h)
 
-def runActs (g : Bool) : Nat → Store → List Act → Res
+def runActs (g x : Bool) : Nat → Store → List Act → Res
   | 0, σ, _ => Res.outOfFuel σ
   | _ + 1, σ, [] => Res.ok σ true []
-  | _ + 1, σ, .throw :: _ => ⟨σ, false, [], true, false⟩
+  | _ + 1, σ, .throw :: _ => ⟨σ, false, [], true, false, false⟩
   | f + 1, σ, .call t a :: rest =>
     if callable σ t then
-      let r := aCall g f σ t a true
-      if r.thrown then ⟨r.σ, false, r.tr, true, r.oof⟩
+      let r := aCall g x f σ t a true
+      if r.thrown then ⟨r.σ, false, r.tr, true, r.oof, r.td⟩
       else
-        let q := runActs g f r.σ rest
-        ⟨q.σ, true, r.tr ++ q.tr, q.thrown, q.oof⟩
-    else runActs g f σ rest
+        let q := runActs g x f r.σ rest
+        ⟨q.σ, true, r.tr ++ q.tr, q.thrown, r.oof || q.oof, r.td || q.td⟩
+    else runActs g x f σ rest
   | f + 1, σ, .add p c req :: rest =>
     match addOp σ p c req with
-    | none => runActs g f σ rest
-    | some (σ', _) => runActs g f σ' rest
+    | none => runActs g x f σ rest
+    | some (σ', _) => runActs g x f σ' rest
 end
 
 /-- `delete n`: `~Module()` = `cleanup()` with the base hooks for `n` itself, then delete the
 children in registration order -/
-def aDestroy (g : Bool) : Nat → Store → Nat → Res
+def aDestroy (g x : Bool) : Nat → Store → Nat → Res
   | 0, σ, _ => Res.outOfFuel σ
   | f + 1, σ, n =>
-    let x := σ.get n
-    let σ0 := σ.set n { x with dying := true }
-    let c := aCall g f σ0 n .cleanup false
+    let nd := σ.get n
+    let σ0 := σ.set n { nd with dying := true }
+    let c := aCall g x f σ0 n .cleanup false
     if c.thrown then c
     else
       let r := (c.σ n).kids.foldl (fun (acc : Res) k =>
         if acc.thrown then acc
         else
-          let d := aDestroy g f acc.σ k.1
-          ⟨d.σ, true, acc.tr ++ d.tr, d.thrown, d.oof⟩) (Res.ok c.σ true c.tr)
+          let d := aDestroy g x f acc.σ k.1
+          ⟨d.σ, true, acc.tr ++ d.tr, d.thrown, acc.oof || d.oof, acc.td || d.td⟩) ⟨c.σ, true, c.tr, false, c.oof, c.td⟩
       { r with σ := r.σ.set n {} }
 
 /-- `fillDefaultConfig(js)` on an empty object creates the key of every named module of the tree
@@ -308,6 +341,17 @@ def fillAll : Nat → Store → Nat → Store
   | f + 1, σ, n =>
     let x := σ.get n
     (x.kids.foldl (fun acc k => fillAll f acc k.1) (σ.set n { x with cfg := true }))
+
+def mkKids : List (Mod × Bool) → Kids
+  | [] => .nil
+  | (m, r) :: rest => .cons m r (mkKids rest)
+
+/-- the tree below module `n` of the store (driver glue for `toJson`; the fuel bounds the depth) -/
+def toMod : Nat → Store → Nat → Mod
+  | 0, σ, n => .node ⟨n, (σ.get n).named, (σ.get n).cfg, (σ.get n).initOk, (σ.get n).startOk, (σ.get n).st⟩ .nil
+  | f + 1, σ, n =>
+    .node ⟨n, (σ.get n).named, (σ.get n).cfg, (σ.get n).initOk, (σ.get n).startOk, (σ.get n).st⟩
+      (mkKids ((σ.get n).kids.map fun k => (toMod f σ k.1, k.2)))
 
 def fuel0 : Nat := 4000
 
